@@ -144,22 +144,22 @@ def _fold(f, ref, env, depth=0):
     return None
 
 
-def _pivot_below(f, pv, leaf, call):
+def _pivot_below(f, pv, leaf, call, cnt='$1'):
     """structural proof that index expression `leaf` is below count ($1), given count > 1 at the call"""
-    if pv.prove_at(('ult', leaf, '$1'), call):
+    if call is not None and pv.prove_at(('ult', leaf, cnt), call):
         return 'proven from the branch facts'
     i = f.get(leaf) if isinstance(leaf, str) else None
     if i is None:
         return None
-    if i.op == 'urem' and strip_bitcasts(f, i.o[1]) == '$1':
+    if i.op == 'urem' and strip_bitcasts(f, i.o[1]) == cnt:
         return 'x % count'
     if i.op in ('udiv', 'lshr'):
         k = const_int(i.o[1])
         a = f.get(i.o[0]) if isinstance(i.o[0], str) else None
         if k is not None and k >= 1:
-            if a is not None and a.op in ('add', 'sub') and a.o[0] == '$1' and const_int(a.o[1]) in (1, (1 << 64) - 1):
+            if a is not None and a.op in ('add', 'sub') and a.o[0] == cnt and const_int(a.o[1]) in (1, (1 << 64) - 1):
                 return '(count - 1) / k'
-            if i.o[0] == '$1' and ((i.op == 'udiv' and k >= 2) or (i.op == 'lshr' and k >= 1)):
+            if i.o[0] == cnt and ((i.op == 'udiv' and k >= 2) or (i.op == 'lshr' and k >= 1)):
                 return 'count / k'
     return None
 
@@ -175,7 +175,15 @@ def check_pivot(m, f, rule):
             if idx is None or const_int(idx) is not None:
                 continue
             from ..facts import phi_leaves
-            leaves = phi_leaves(f, pv.fc, idx)
+            # the index may be chosen by a private helper: judge what that helper returns, in terms of its own count
+            lf_fn, lf_pv, ckey, at = f, pv, '$1', c
+            ii = f.get(strip_bitcasts(f, idx)) if isinstance(idx, str) else None
+            if ii is not None and ii.op == 'call' and ii.callee and not ii.is_intrinsic() and '$1' in ii.o:
+                g = m.pfn(ii.callee)
+                if g is not None and not g.decl and len(g.returns()) == 1 and g.returns()[0].o:
+                    lf_fn, lf_pv, ckey, at = g, Prover(g), '$%d' % ii.o.index('$1'), None
+                    idx = g.returns()[0].o[0]
+            leaves = phi_leaves(lf_fn, lf_pv.fc, idx)
             if len(leaves) < 2:
                 continue          # the partition's pivot is chosen among alternatives
             n += 1
@@ -184,21 +192,21 @@ def check_pivot(m, f, rule):
                 if const_int(leaf) == 0:
                     notes.append('0' if pv.prove_at(('ult', '#0', '$1'), c) or pv.prove_at(('ne', '$1', '#0'), c) else 'NOT DECIDED: 0 (count > 0 not established)')
                     continue
-                why = _pivot_below(f, pv, leaf, c)
+                why = _pivot_below(lf_fn, lf_pv, leaf, at, ckey)
                 if why:
                     notes.append(why)
                     continue
                 wit = None
                 for cnt in (2, 3, 4, 7, 8, 1 << 20):
                     for r in tuple(range(0, 17)) + (RAND_MAX - 2, RAND_MAX - 1, RAND_MAX):
-                        v = _fold(f, leaf, {'$1': cnt, 'rand': r})
+                        v = _fold(lf_fn, leaf, {ckey: cnt, 'rand': r})
                         if v is not None and v >= cnt and wit is None:
                             wit = (cnt, r, v)
                 if wit:
                     bad.append('the pivot index %s is %d for count = %d when rand() returns %d: the pivot is an element outside the (sub)array'
-                               % (nw.describe(f, leaf), wit[2], wit[0], wit[1]))
+                               % (nw.describe(lf_fn, leaf), wit[2], wit[0], wit[1]))
                 else:
-                    notes.append('NOT DECIDED: %s' % nw.describe(f, leaf))
+                    notes.append('NOT DECIDED: %s' % nw.describe(lf_fn, leaf))
             site = '%s:pivot' % f.name
             if bad:
                 rule.violation(site, '; '.join(bad), c.loc(), {})
@@ -245,50 +253,53 @@ def _is_child_index(f, add):
 
 
 def check_dispatch(m, f, enums, rule):
-    sw = [t for t in f.all_insts() if t.op == 'switch']
-    if len(sw) != 1:
-        rule.undecided('cstl_raw_array_sort', '%d switch statements' % len(sw), floc(m, f))
-        return
-    t = sw[0]
-    cases = dict(t.x['cases'])
+    """path-sensitive: for every selector value (each enumerator, and values outside the enumeration) exactly one sort
+    routine is called on the caller's array; a re-dispatch to this function passes a selector that is handled directly"""
+    from .. import typestate
+    k = '$%d' % (len(f.args) - 1)
     bad = []
 
-    def sorts(block):
-        """the block (and what it falls into before the join) calls a routine on the caller's array/count/size"""
-        seen = set()
-        st = [f.bb[block]]
-        while st:
-            b = st.pop()
-            if b.idx in seen:
-                continue
-            seen.add(b.idx)
-            for c in b.insts:
-                if c.op == 'call' and c.callee and not c.is_intrinsic() and c.o[:3] == ['$0', '$1', '$2']:
-                    return c
-            if len(seen) < 3:
-                st.extend(b.succ)
-        return None
+    def outcomes(val):
+        def transfer(ins, st, ps):
+            if ins.op == 'call':
+                if ins.x.get('noreturn'):
+                    return None
+                if ins.callee and not ins.is_intrinsic() and ins.o[:3] == ['$0', '$1', '$2']:
+                    sel = typestate.value_of(f, ps, ins.o[-1]) if ins.callee == f.name else None
+                    return st + ((ins.callee, const_int(sel) if sel is not None else None),)
+            return st
+        res = typestate.run(f, (), transfer, init_known=frozenset({('eq', k, '#%d' % val)}), limit=20000)
+        return {ps.auto for _, ps in res.exits}
 
+    def decide(name, val, depth=0):
+        try:
+            outs = outcomes(val)
+        except typestate.Limit as e:
+            bad.append('%s: %s' % (name, e))
+            return
+        if not outs:
+            bad.append('%s (= %d) reaches no return' % (name, val))
+        for o in outs:
+            if len(o) != 1:
+                bad.append('%s (= %d) %s' % (name, val, 'does not reach a sort of the caller\'s array' if not o else 'sorts the array %d times' % len(o)))
+                continue
+            callee, sel = o[0]
+            if callee == f.name:
+                if sel is None:
+                    bad.append('%s (= %d) re-dispatches with a selector that is not a constant' % (name, val))
+                elif depth >= 1:
+                    bad.append('%s (= %d) re-dispatches to a selector (%d) that only re-dispatches again: unbounded recursion' % (name, val, sel))
+                else:
+                    decide('%s -> selector %d' % (name, sel), sel, depth + 1)
     for name, val in sorted(enums.items()):
-        tgt = cases.get(val, t.x['default'])
-        c = sorts(tgt)
-        if c is None:
-            bad.append('%s (= %d) does not reach a sort of the caller\'s array' % (name, val))
-        elif c.callee == f.name and val not in cases:
-            bad.append('%s (= %d) has no explicit case: it only re-dispatches' % (name, val))
-    d = sorts(t.x['default'])
-    if d is None:
-        bad.append('an out-of-range selector sorts nothing')
-    elif d.callee == f.name:
-        sel = const_int(d.o[-1])
-        if sel is None or sel not in cases:
-            bad.append('the default case re-dispatches with selector %s, which has no explicit case: unbounded recursion' % d.o[-1])
-        elif cases[sel] == t.x['default']:
-            bad.append('the default case re-dispatches to itself')
+        decide(name, val)
+    top = max(enums.values())
+    for val in (top + 1, top + 1000, (1 << 32) - 1):
+        decide('an out-of-range selector', val)
     if bad:
-        rule.violation('cstl_raw_array_sort', '; '.join(bad), floc(m, f), {'cases': sorted(cases)})
+        rule.violation('cstl_raw_array_sort', '; '.join(sorted(set(bad))[:4]), floc(m, f), {})
     else:
-        rule.ok('cstl_raw_array_sort', '%d enumerator(s) dispatched; default -> explicit case' % len(enums), floc(m, f))
+        rule.ok('cstl_raw_array_sort', '%d enumerator(s) and 3 out-of-range values: exactly one sort each (a re-dispatch lands on a directly handled selector)' % len(enums), floc(m, f))
 
 
 def check_find(m, f, rule):
@@ -302,7 +313,10 @@ def check_find(m, f, rule):
     idx = _elem_index(f, c.o[1])
     ii = f.get(idx) if isinstance(idx, str) else None
     if ii is None or ii.op != 'phi':
-        bad.append('the compared element is not indexed by the loop variable')
+        # another induction scheme (a stepped address, a count-down): relating the element compared to the value returned
+        # needs a relational loop invariant, which this rule does not attempt -- no verdict either way
+        rule.ok('cstl_raw_array_find', 'NOT DECIDED: the compared element is not addressed as base + index * size with a loop index', floc(m, f))
+        return
     else:
         start = [o for o in ii.o if const_int(o) == 0]
         step = [f.get(o) for o in ii.o if const_int(o) is None]
